@@ -824,6 +824,33 @@ def weighted_ops(cls, n, wes, slot=0):
     return ops
 
 
+def scaled_weight_family(tier, rng, count):
+    """weights that are not exactly representable (every weight times 7/10, 1/3, …): sums are rounded, ties between
+    routes are ties between *rounded* sums.  All non-zero weights of a graph are equal, so that routes of equal
+    exact length have equal floating-point length as well and the exact model stays comparable (harness: `mode wscale`)."""
+    for _ in range(count):
+        cls = rng.choice(WEIGHTED)
+        a, b = rng.choice([(7, 10), (1, 3), (1, 10), (3, 7), (11, 10)])
+        c = rng.choice([1, 2, 3, 4, 5, 7])
+        shape = rng.choice(["layered", "layered", "grid", "random"])
+        if shape == "layered":
+            n, es = layered(rng.choice([2, 3]), rng.randint(2, scale(tier, 10, 14)), back=rng.random() < 0.3)
+        elif shape == "grid":
+            n, es = grid(rng.randint(2, 5), rng.randint(2, 5))
+        else:
+            n = rng.randint(2, 12)
+            es = rand_edges(rng, n, density=rng.choice([0.2, 0.4, 0.7]))
+        if cls == "uw":
+            es = und_canon(es)
+        zero_p = rng.choice([0.0, 0.0, 0.2])
+        wes = [(i, j, 0 if rng.random() < zero_p else c) for (i, j) in es]
+        ops = weighted_ops(cls, n, wes)
+        ops.insert(1, f"mode wscale {a} {b}")
+        srcs = [0, n - 1] + [rng.randrange(n) for _ in range(2)]
+        ops += [f"dijkstra 0 {s_}" for s_ in sorted(set(srcs))]
+        yield ({"cls": cls, "kind": "-", "n": n, "len": len(ops), "family": "scaled-weights"}, ops)
+
+
 def wl_C12(tier, rng):
     alpha = [0, 1, 2, 4, 8]   # quarter units: 0, 1/4, 1/2, 1, 2
     for cls in WEIGHTED:
@@ -860,6 +887,7 @@ def wl_C12(tier, rng):
         wes = [(i, j, rng.choice([0, rng.randint(0, wmax), rng.randint(0, wmax)])) for (i, j) in es]
         ops = weighted_ops(cls, n, wes) + [f"dijkstra 0 {s_}" for s_ in rng.sample(wide.special(n), min(4, len(wide.special(n))))]
         yield ({"cls": cls, "kind": "-", "n": n, "len": len(ops), "family": "wide"}, ops)
+    yield from scaled_weight_family(tier, rng, scale(tier, 60, 1200))
     # zero-weight cycles
     for n in range(2, scale(tier, 8, 16)):
         for cls in WEIGHTED:
@@ -905,6 +933,7 @@ def wl_C19(tier, rng):
             wes = [(i, j, rng.choice([0, 1, 4, rng.randint(0, 20)])) for (i, j) in es]
             ops = weighted_ops(cls, n, wes) + [f"dijkstra 0 {s_}" for s_ in rng.sample(wide.special(n), min(4, len(wide.special(n))))]
         yield ({"cls": cls, "kind": "-", "n": n, "len": len(ops), "family": "wide"}, ops)
+    yield from scaled_weight_family(tier, rng, scale(tier, 60, 1200))
     # scan counts on all small graphs and random ones (same histories as C11/C12, fewer)
     for cls in SIMPLE:
         und = cls == "und"
